@@ -1463,6 +1463,8 @@ class FlowIR(object):
         component = deep_copy(component)
 
         comp_stage = component.get('stage', None)
+        # VV: components without a `stage` field belong to stage 0
+        owner_stage = comp_stage or 0
 
         for ref in refs_to_replicate:
             for replica in range(count):
@@ -1474,7 +1476,13 @@ class FlowIR(object):
                 original_long = FlowIR.compile_reference(producer, filename, method, stage_index)
                 original_short = FlowIR.compile_reference(producer, filename, method)
 
-                for ref_str in [original_long, original_short]:
+                original_forms = [original_long]
+                if stage_index == owner_stage:
+                    # VV: the relative form refers to a producer in the stage of @component, it only stands for
+                    # this producer when the two are in the same stage
+                    original_forms.append(original_short)
+
+                for ref_str in original_forms:
                     if ref_str not in translation_map:
                         translation_map[ref_str] = []
 
@@ -1488,9 +1496,10 @@ class FlowIR(object):
                 # e.g. Component:ref/file.txt -> Component1:ref/file.txt Component2:ref/file.txt etc
                 update_refs = [ref]
                 stage_index, producer, filename, method = cls.ParseDataReferenceFull(ref, None)
-                if stage_index is not None:
+                if stage_index is not None and stage_index == owner_stage:
                     # VV: We want to add the ABSOLUTE reference second so that we do not end up with:
                     # stage<idx>.stage<idx>.<component name>
+                    # (the relative form is only meaningful for producers in the same stage as @component)
                     extra_ref = cls.compile_reference(
                         producer=producer, filename=filename, method=method)
                     update_refs.append(extra_ref)
@@ -1571,7 +1580,10 @@ class FlowIR(object):
             original_short = FlowIR.compile_reference(producer, filename, method)
 
             translation[original_long] = rewritten
-            translation[original_short] = rewritten
+            if stage_index == owner_stage:
+                # VV: the relative form refers to a producer in the stage of @component, it only stands for
+                # this producer when the two are in the same stage
+                translation[original_short] = rewritten
 
         # VV: Ensure that references are replaced from the longest one to the shortest one so that
         #     there is no way that a partial reference is replaced. This is probably overkill;
